@@ -30,6 +30,28 @@ ROUND3 = {
  "C20": " Third round: Update builds a fresh list; MarkAsDead always marks; the retrier is bounded.",
 }
 
+# structural conditions added after the fifth mutant round
+ROUND5 = {
+ "C01": " Fifth round: the cache rebuild consumes a reused read buffer up to the count read; the client's automatic verification pairs an answer with the stored snapshots of its own versions (finite order model).",
+ "C02": " Fifth round: which stored snapshot supplies which digest is decided per path on every ordering Actual<=Query<=Current.",
+ "C03": " Fifth round: recycled (sync.Pool) objects never leak into a proof handed out; the incremental handler admits every pair Start<=End (finite order model).",
+ "C04": " Fifth round: the applied-index marker persisted with an entry is the entry's own new state.",
+ "C05": " Fifth round: RefreshVersion sets the counter unconditionally on the found edge; an encoded command never aliases a recycled buffer.",
+ "C06": " Fifth round: RebuildCache reads the persisted tiles on every path.",
+ "C07": " Fifth round: the leader-side transfer filter is decided by the order model for this property too.",
+ "C08": " Fifth round: Close returns early only with the error of a release step; a restarted node accepts its own snapshot (order model over state/snapshot versions).",
+ "C09": " Fifth round: every error edge of the store's transfer returns the error it tested.",
+ "C10": " Fifth round: RaftNode.state is confined to the FSM goroutine; response bodies never alias a recycled buffer.",
+ "C11": " Fifth round: no re-entrant read lock through a method of the same receiver; the digest-length guard compares an untruncated length.",
+ "C12": " Fifth round: the nil test of a decoded answer is required also when decoding goes through a helper.",
+ "C13": " Fifth round: decoded proofs are paired with the stored snapshots of their own versions; answers are read to their end; the gossip receive buffer is not retained; no recycled buffer escapes in any codec package.",
+ "C14": " Fifth round: B+tree walks bound the key by the table prefix on both sides; a batch is never reordered unstably.",
+ "C15": " Fifth round: a decoded log entry never shares memory with a recycled decoding target.",
+ "C16": " Fifth round: a successful CreateBackup always passes through the store's Backup.",
+ "C17": " Fifth round: encoded batches never alias a recycled buffer; delivery goroutines get copies of lock-protected subscriber lists.",
+ "C20": " Fifth round: callPrimary's rediscovery does not depend on the state of the other endpoints.",
+}
+
 def claim(id, ref, technique, text, note):
     CLAIMED[id] = (ref, technique, text, note)
 
@@ -132,7 +154,7 @@ def main():
         if id not in CLAIMED:
             continue
         ref, tech, text, note = CLAIMED[id]
-        text = text + ROUND3.get(id, '')
+        text = text + ROUND3.get(id, '') + ROUND5.get(id, '')
         checks.append({
             "property_id": id,
             "quick_cmd": "./check.sh %s quick" % id,
